@@ -1932,7 +1932,17 @@ def family_f1(rng):
         Contract(
             "pz",
             "f1",
-            std_handlers(rng, extra=[Handler("exec", "retitle", [Arg("title", "String")], alias="old_retitle"), Handler("query", "titled", [Arg("k", "String")], ret="String", alias="old_titled")]),
+            std_handlers(
+                rng,
+                extra=[
+                    Handler("exec", "retitle", [Arg("title", "String")], alias="old_retitle"),
+                    Handler("query", "titled", [Arg("k", "String")], ret="String", alias="old_titled"),
+                    # a parameter whose JSON form nests arbitrarily deep
+                    Handler("exec", "plant", [Arg("tree", "Tree")]),
+                    Handler("query", "shade", [Arg("tree", "Tree")], ret="u64"),
+                    Handler("sudo", "prune", [Arg("tree", "Tree"), Arg("n", "u32")]),
+                ],
+            ),
             uses=[Use(lib["eps"])],
             err="std",
             tags=T + ("regular",),
